@@ -112,6 +112,8 @@ def content(rng, i):
         else:
             d[k] = rng.choice([f"v{i}_{k}", i, float(i) + 0.5, i % 2 == 0, None, None, 0, "", []])   # falsy values win like any other
     d[f"only{i}"] = i
+    if rng.random() < 0.15:
+        d["pat"] = "logs/*.txt"      # no comment closer follows in such a file (see render): the opener is data
     return d
 
 
@@ -133,9 +135,13 @@ def render(f, selfref_key=None) -> str:
         return f'#include "{inc}"' if q == 1 else f"#include '{inc}'"
 
     lines = [directive(inc) for inc in f["includes"]]
+    has_pat = "pat" in c
+    if "pat" in c:
+        # a quoted value that holds a comment opener (a file pattern), on a line ABOVE the include directives
+        lines.insert(0, f"pat  '{c.pop('pat')}';")
     # a line comment and a block comment per native file (exercise comments on/off through the include chain)
     tag = f["rel"].replace("/", "_")
-    return "\n".join(lines) + ("\n" if lines else "") + f"// comment of {tag}\n" + body + f"/* block of {tag} */\n"
+    return "\n".join(lines) + ("\n" if lines else "") + f"// comment of {tag}\n" + body + ("" if has_pat else f"/* block of {tag} */\n")
 
 
 def spec_closure(files, idx_by_path, path, chain):
